@@ -29,6 +29,7 @@ def dataset(dump):
 class C06(Spec):
     pid = "C06"
     lean_module = "NunVerif.Props.C06"
+    search_cap = 4000
     theorems = ["Nun.C06_le64_roundtrip", "Nun.C06_version_roundtrip", "Nun.C06_key_record_size", "Nun.C06_value_record_size",
                 "Nun.C06_snapshot_keeps_memory", "Nun.snapshotDb_sameData"]
     rule = ("all sequences of length L over {set (values of 0, 1, 6 multi-byte and 300 bytes), set-safe, remove, increment, snapshot false, snapshot true, restart} x keys, "
